@@ -237,9 +237,7 @@ struct HashWorld : World {
             size_t len = 0;
             for (qhashtbl_obj_t *o = t->slots[i]; o; o = o->next) {
                 if (++len > t->num + 4) { x.fail("structure", "struct", "collision chain longer than the key count (cycle)"); }
-                uint32_t h = qhashmurmur3_32(o->name, strlen(o->name));
-                if (o->hash != h) x.fail("structure", "struct", "stored hash of '" + Bytes(o->name) + "' is stale");
-                if (h % t->range != i) x.fail("structure", "struct", "key '" + Bytes(o->name) + "' sits in the wrong slot");
+                // which hash function places a key is the implementation's business: a misplaced key shows up as a failed lookup
                 if (!names.insert(o->name).second) x.fail("structure", "struct", "key '" + Bytes(o->name) + "' is stored twice");
                 cnt++;
             }
@@ -268,7 +266,7 @@ Result HashModel::apply(const Op &op) {
     switch (op.k) {
     case H_PUT: {
         if (op.d & SELFREF) { auto it = m.find(w->key(op.a)); if (it == m.end() || it->second.empty()) return R_ok("skip"); it->second = it->second.substr((size_t)op.c % it->second.size()); return R_ok(); }
-        if (op.d & (NULLKEY | NULLDATA)) return R_fail();
+        if ((op.d & NULLKEY) || ((op.d & NULLDATA) && (op.d & 3) != 3)) return R_fail();     // putint takes no data pointer
         Bytes v = w->value(op);
         if ((op.d & 3) == 1 || (op.d & 3) == 2) v = Bytes(v.c_str()) + Bytes(1, '\0');
         m[w->key(op.a)] = v; return R_ok();
